@@ -35,7 +35,11 @@ type c20Res struct {
 func c20results(fn *ssa.Function, i int) []c20Res {
 	var out []c20Res
 	seen := map[ssa.Instruction]bool{}
-	for _, r := range c05returns(fn) {
+	rets := c05returns(fn)
+	for _, r := range rets {
+		if fn.Recover != nil && r.Block() == fn.Recover && len(rets) > 1 {
+			continue // the recover block re-reads the result cells the other returns filled (load.go despillReturns)
+		}
 		v := r.Results[i]
 		if ld, ok := v.(*ssa.UnOp); ok && ld.Op == token.MUL {
 			if cell, ok := ld.X.(*ssa.Alloc); ok {
